@@ -288,7 +288,8 @@ def run(ctx):
                    "only the URI handed to the download function has the comment stripped", gm.loc(cm_calls[0]))
     gi = p.get_method(FC, "__getitem__")
     # the returned paths are computed from the same full URIs
-    fp_defs = [d for d in local_assignments(gi.node).get("filepaths", []) if d[0] == "assign"]
+    from .fc import returned_name, name_bound_to_call
+    fp_defs = [d for d in local_assignments(gi.node).get(returned_name(gi.node) or "", []) if d[0] == "assign"]
     okfp = any(isinstance(d[1], ast.ListComp) and isinstance(d[1].elt, ast.Call)
                and call_name(d[1].elt).endswith("._cache_file_path") for d in fp_defs)
     ctx.expect(okfp, "R18.2", "__getitem__[returned paths]", "returned paths are _cache_file_path(uri) of the parsed URIs", gi.loc())
@@ -332,17 +333,19 @@ def run(ctx):
     appends = [c for c in calls(gm.node) if isinstance(c.func, ast.Attribute) and c.func.attr == "append"
                and any(isinstance(a, ast.Call) and call_name(a) == "CacheMiss" for a in c.args)]
     guarded = False
+    valid_flag = None
     for lp in loops:
         for st in ast.walk(lp):
             if isinstance(st, ast.If) and any(a in list(ast.walk(st)) for a in appends):
-                t = ast.unparse(st.test)
-                if t == "not valid_entry" and all(a in [x for b in st.body for x in ast.walk(b)] for a in appends):
+                if isinstance(st.test, ast.UnaryOp) and isinstance(st.test.op, ast.Not) and isinstance(st.test.operand, ast.Name) \
+                        and all(a in [x for b in st.body for x in ast.walk(b)] for a in appends):
                     guarded = True
+                    valid_flag = st.test.operand.id
     ctx.expect(guarded and len(appends) == 1, "R18.4", "get_cache_misses[misses only when not valid]",
                "a URI becomes a CacheMiss only if it is absent from the cache or failed validation", gm.loc())
     # (b) valid_entry can be True only under _is_in_cache(hashkey)
     true_sets = [n for n in own_walk(gm.node) if isinstance(n, (ast.Assign, ast.AnnAssign))
-                 and any(isinstance(t, ast.Name) and t.id == "valid_entry"
+                 and any(isinstance(t, ast.Name) and t.id == valid_flag
                          for t in (n.targets if isinstance(n, ast.Assign) else [n.target]))
                  and not (isinstance(n.value, ast.Constant) and n.value.value is False)]
     in_cache_ifs = [n for n in own_walk(gm.node) if isinstance(n, ast.If) and "_is_in_cache" in ast.unparse(n.test)
@@ -375,7 +378,7 @@ def run(ctx):
                     # must be on a branch where the entry is valid: enclosing If tests mention valid_entry positively
                     anc_tests = [ast.unparse(n.test) for n in own_walk(host.node) if isinstance(n, ast.If)
                                  and c in [x for b in n.body for x in ast.walk(b)]]
-                    if host is gm and any(tst == "valid_entry" for tst in anc_tests):
+                    if host is gm and any(tst == valid_flag for tst in anc_tests):
                         hit_touch = True
                         where = host.loc(c)
                     if host is gi:
@@ -494,7 +497,7 @@ def run(ctx):
         "imap_unordered", "map_async", "apply_async", "starmap_async")]
     good = [c for c in calls(dl.node) if (isinstance(c.func, ast.Attribute) and c.func.attr in ("imap", "map", "starmap"))
             or call_name(c) == "map"]
-    over_misses = [c for c in good if any(isinstance(a, ast.Name) and a.id == "cache_misses" for a in c.args)]
+    over_misses = [c for c in good if any(isinstance(a, ast.Name) and a.id == dl.params[0] for a in c.args)]
     for c in bad_maps:
         ctx.bad("R18.6", f"_download_from_resources[{c.func.attr}]", "results of an unordered/asynchronous map are paired "
                 "positionally with the misses", dl.loc(c))
@@ -505,10 +508,11 @@ def run(ctx):
     okz = False
     for z in zips:
         names = [a.id for a in z.args if isinstance(a, ast.Name)]
-        if len(names) == 2 and names[0] == "cache_misses":
+        misses_name = name_bound_to_call(gi.node, ".get_cache_misses")
+        if len(names) == 2 and misses_name is not None and names[0] == misses_name:
             d = [x for x in local_assignments(gi.node).get(names[1], []) if x[0] == "assign"]
             if any(isinstance(x[1], ast.Call) and call_name(x[1]) == "_download_from_resources"
-                   and x[1].args and isinstance(x[1].args[0], ast.Name) and x[1].args[0].id == "cache_misses" for x in d):
+                   and x[1].args and isinstance(x[1].args[0], ast.Name) and x[1].args[0].id == misses_name for x in d):
                 okz = True
     ctx.expect(okz, "R18.6", "__getitem__[results zipped with misses]",
                "download results are paired with the very list of misses that was downloaded", gi.loc())
